@@ -483,6 +483,12 @@ func (g *graph) addBranch(startNode string, branch *GraphBranch, skipData bool) 
 		g.handlerPreBranch[startNode] = append(g.handlerPreBranch[startNode], []handlerPair{})
 	}
 
+	// the branch may just have given a passthrough start node its type: let the edges waiting on
+	// that node see it now, also when the branch adds no data edge of its own (no end nodes, skipData)
+	if err = g.updateToValidateMap(); err != nil {
+		return err
+	}
+
 	if !skipData {
 		for endNode := range branch.endNodes {
 			if _, ok := g.nodes[endNode]; !ok {
